@@ -1,6 +1,653 @@
-//! C32 — not implemented yet.
+//! C32 — Join reordering never introduces a cross product.
+//!
+//! Generator: 2–7 distinct tables (table-unique column names, BIGINT columns,
+//! small domains, skewed sizes) and a CONNECTED equality graph over them:
+//! a random spanning tree (chains and stars fall out of the parent choice) plus
+//! extra edges (cycles, cliques), single- or two-column (composite) edges,
+//! extra non-equality predicates between two relations or on one relation.
+//! The statement is written with the relations in a scrambled order as comma
+//! joins + WHERE, as an explicit INNER/CROSS JOIN chain (ON = the predicates
+//! whose relations are already in the chain, the rest in WHERE), or a mix.
+//! Tables are registered as memory (no statistics) and as Parquet (statistics).
+//!
+//! Oracle — validity predicate on `ctx.optimized_plan(sql)`:
+//!  V1 no Cross join, no Inner join with empty `on` and no filter;
+//!  V2 every base relation occurs exactly once;
+//!  V3 the column equivalence classes induced by the plan's equality predicates
+//!     (join `on` pairs, PackedJoinKeys' packed pairs counted as their two
+//!     equalities, `col = col` conjuncts of filters) equal those of the written
+//!     predicates (union-find) — joining through an implied equality is fine;
+//!  V4 every written non-equality predicate is still a conjunct at a node whose
+//!     subtree scans the relations it names;
+//!  V5 every join's `on` pair has one side from each input.
+//! Plus: the optimized answer equals the unoptimized one (multiset).
 use super::Property;
+use crate::data::*;
+use crate::engine::*;
+use crate::runner::*;
+use proptest::prelude::*;
+use proptest::strategy::BoxedStrategy;
+use query_engine::planner as qp;
+use query_engine::planner::LogicalPlan;
+use query_engine::ExecutionContext;
+use serde::{Deserialize, Serialize};
+use std::collections::{BTreeMap, BTreeSet};
+
+#[path = "c03_util.rs"]
+mod util;
+use util::{bind, expr_walk, for_each_node, node_exprs, plan_text, stats_of};
+
+#[derive(Clone, Debug, Serialize, Deserialize)]
+pub struct NonEq {
+    pub a: (usize, usize),
+    /// 0 `<`, 1 `<=`, 2 `>`, 3 `<>`
+    pub op: u8,
+    pub b: Option<(usize, usize)>,
+    pub lit: i64,
+}
+
+#[derive(Clone, Debug, Serialize, Deserialize)]
+pub struct JoinCase {
+    pub tables: Vec<Table>,
+    /// written order of the relations (a permutation of the table indices)
+    pub order: Vec<usize>,
+    /// equality edges (rel, col, rel, col)
+    pub edges: Vec<(usize, usize, usize, usize)>,
+    pub noneq: Vec<NonEq>,
+    /// per position k >= 1 of `order`: attach with an explicit JOIN (true) or a comma (false)
+    pub explicit: Vec<bool>,
+    pub select: Vec<(usize, usize)>,
+    pub layouts: Vec<ParquetLayout>,
+}
+
+fn col_name(c: &JoinCase, rc: (usize, usize)) -> String {
+    format!("{}.{}", c.tables[rc.0].name, c.tables[rc.0].cols[rc.1].name)
+}
+
+fn op_sql(op: u8) -> &'static str {
+    ["<", "<=", ">", "<>"][op as usize % 4]
+}
+
+pub fn render(c: &JoinCase) -> String {
+    // predicates as (relations involved, text)
+    let mut preds: Vec<(BTreeSet<usize>, String)> = vec![];
+    for (ra, ca, rb, cb) in &c.edges {
+        preds.push(([*ra, *rb].into_iter().collect(), format!("({} = {})", col_name(c, (*ra, *ca)), col_name(c, (*rb, *cb)))));
+    }
+    for p in &c.noneq {
+        match p.b {
+            Some(b) => preds.push(([p.a.0, b.0].into_iter().collect(), format!("({} {} {})", col_name(c, p.a), op_sql(p.op), col_name(c, b)))),
+            None => preds.push(([p.a.0].into_iter().collect(), format!("({} {} {})", col_name(c, p.a), op_sql(p.op), p.lit))),
+        }
+    }
+    let mut used = vec![false; preds.len()];
+    let mut from = String::new();
+    let mut tree: BTreeSet<usize> = BTreeSet::new();
+    for (k, r) in c.order.iter().enumerate() {
+        let name = &c.tables[*r].name;
+        if k == 0 {
+            from.push_str(name);
+            tree.insert(*r);
+            continue;
+        }
+        if c.explicit.get(k - 1).copied().unwrap_or(false) {
+            tree.insert(*r);
+            let mut on = vec![];
+            for (i, (rels, text)) in preds.iter().enumerate() {
+                if !used[i] && rels.contains(r) && rels.len() == 2 && rels.iter().all(|x| tree.contains(x)) {
+                    used[i] = true;
+                    on.push(text.clone());
+                }
+            }
+            if on.is_empty() {
+                from.push_str(&format!(" CROSS JOIN {}", name));
+            } else {
+                from.push_str(&format!(" INNER JOIN {} ON {}", name, on.join(" AND ")));
+            }
+        } else {
+            from.push_str(&format!(", {}", name));
+            tree = [*r].into_iter().collect();
+        }
+    }
+    let rest: Vec<String> = preds.iter().enumerate().filter(|(i, _)| !used[*i]).map(|(_, (_, t))| t.clone()).collect();
+    let items: Vec<String> = c.select.iter().enumerate().map(|(i, rc)| format!("{} AS c{}", col_name(c, *rc), i + 1)).collect();
+    let mut sql = format!("SELECT {} FROM {}", items.join(", "), from);
+    if !rest.is_empty() {
+        sql.push_str(&format!(" WHERE {}", rest.join(" AND ")));
+    }
+    sql
+}
+
+/// the written order needs a cross product: some relation has no equality edge to an earlier one
+fn written_order_needs_cross(c: &JoinCase) -> bool {
+    (1..c.order.len()).any(|k| {
+        let r = c.order[k];
+        !c.edges.iter().any(|(a, _, b, _)| (*a == r && c.order[..k].contains(b)) || (*b == r && c.order[..k].contains(a)))
+    })
+}
+
+// ---------------------------------------------------------------------------
+// validity predicate
+// ---------------------------------------------------------------------------
+
+struct Uf {
+    parent: BTreeMap<String, String>,
+}
+impl Uf {
+    fn new() -> Self {
+        Uf { parent: BTreeMap::new() }
+    }
+    fn find(&mut self, x: &str) -> String {
+        let p = self.parent.get(x).cloned().unwrap_or_else(|| x.to_string());
+        if p == x {
+            self.parent.insert(x.to_string(), p.clone());
+            return p;
+        }
+        let r = self.find(&p);
+        self.parent.insert(x.to_string(), r.clone());
+        r
+    }
+    fn union(&mut self, a: &str, b: &str) {
+        let (ra, rb) = (self.find(a), self.find(b));
+        if ra != rb {
+            self.parent.insert(ra, rb);
+        }
+    }
+    /// the non-singleton classes
+    fn classes(&mut self) -> BTreeSet<BTreeSet<String>> {
+        let keys: Vec<String> = self.parent.keys().cloned().collect();
+        let mut m: BTreeMap<String, BTreeSet<String>> = BTreeMap::new();
+        for k in keys {
+            let r = self.find(&k);
+            m.entry(r).or_default().insert(k);
+        }
+        m.into_values().filter(|s| s.len() > 1).collect()
+    }
+}
+
+fn strip(e: &qp::Expr) -> &qp::Expr {
+    match e {
+        qp::Expr::Cast { expr, .. } | qp::Expr::Alias { expr, .. } => strip(expr),
+        o => o,
+    }
+}
+
+/// bare (unqualified, lower-case) column name: column names are table-unique here
+fn cname(e: &qp::Expr) -> Option<String> {
+    match strip(e) {
+        qp::Expr::Column(c) => Some(c.name.to_lowercase()),
+        _ => None,
+    }
+}
+
+/// `CAST(a) * K + CAST(b)` → (a, b)
+fn packed(e: &qp::Expr) -> Option<(String, String)> {
+    if let qp::Expr::BinaryExpr { left, op: qp::BinaryOp::Add, right } = strip(e) {
+        if let qp::Expr::BinaryExpr { left: a, op: qp::BinaryOp::Multiply, right: k } = strip(left) {
+            if matches!(strip(k), qp::Expr::Literal(_)) {
+                return Some((cname(a)?, cname(right)?));
+            }
+        }
+    }
+    None
+}
+
+fn conjuncts<'e>(e: &'e qp::Expr, out: &mut Vec<&'e qp::Expr>) {
+    match e {
+        qp::Expr::BinaryExpr { left, op: qp::BinaryOp::And, right } => {
+            conjuncts(left, out);
+            conjuncts(right, out);
+        }
+        o => out.push(o),
+    }
+}
+
+fn scanned_tables(p: &LogicalPlan) -> Vec<String> {
+    let mut v = vec![];
+    for_each_node(p, &mut |n| {
+        if let LogicalPlan::Scan(s) = n {
+            v.push(s.table_name.to_lowercase());
+        }
+    });
+    v
+}
+
+fn lit_i64(e: &qp::Expr) -> Option<i64> {
+    match strip(e) {
+        qp::Expr::Literal(v) => {
+            let s = format!("{}", v);
+            s.trim().parse::<i64>().ok()
+        }
+        _ => None,
+    }
+}
+
+/// normalised comparison: (left column, op, right column or literal); `a > b` is stored as `b < a`
+fn norm_cmp(e: &qp::Expr) -> Option<(String, &'static str, String)> {
+    if let qp::Expr::BinaryExpr { left, op, right } = e {
+        let (l, r) = (cname(left).or_else(|| lit_i64(left).map(|i| format!("#{}", i)))?, cname(right).or_else(|| lit_i64(right).map(|i| format!("#{}", i)))?);
+        return match op {
+            qp::BinaryOp::Lt => Some((l, "<", r)),
+            qp::BinaryOp::LtEq => Some((l, "<=", r)),
+            qp::BinaryOp::Gt => Some((r, "<", l)),
+            qp::BinaryOp::GtEq => Some((r, "<=", l)),
+            qp::BinaryOp::NotEq => {
+                if l <= r {
+                    Some((l, "<>", r))
+                } else {
+                    Some((r, "<>", l))
+                }
+            }
+            _ => None,
+        };
+    }
+    None
+}
+
+pub fn validate(c: &JoinCase, plan: &LogicalPlan) -> Result<(), String> {
+    // V1
+    let mut v1: Option<String> = None;
+    for_each_node(plan, &mut |n| {
+        if let LogicalPlan::Join(j) = n {
+            if j.join_type == qp::JoinType::Cross {
+                v1 = Some("V1: the optimized plan contains a CROSS join".into());
+            } else if j.join_type == qp::JoinType::Inner && j.on.is_empty() && j.filter.is_none() {
+                v1 = Some("V1: the optimized plan contains an INNER join without any condition".into());
+            }
+        }
+    });
+    if let Some(m) = v1 {
+        return Err(m);
+    }
+    // V2
+    let mut got = scanned_tables(plan);
+    got.sort();
+    let mut want: Vec<String> = c.order.iter().map(|r| c.tables[*r].name.to_lowercase()).collect();
+    want.sort();
+    if got != want {
+        return Err(format!("V2: base relations of the optimized plan {:?} != written relations {:?}", got, want));
+    }
+    // V3
+    let bare = |rc: (usize, usize)| c.tables[rc.0].cols[rc.1].name.to_lowercase();
+    let mut orig = Uf::new();
+    for (ra, ca, rb, cb) in &c.edges {
+        orig.union(&bare((*ra, *ca)), &bare((*rb, *cb)));
+    }
+    let mut opt = Uf::new();
+    let mut v5: Option<String> = None;
+    // (conjunct text-normalised, tables scanned below the node)
+    let mut cmps: Vec<((String, &'static str, String), Vec<String>)> = vec![];
+    for_each_node(plan, &mut |n| {
+        if let LogicalPlan::Join(j) = n {
+            let (ls, rs) = (j.left.schema(), j.right.schema());
+            let side = |e: &qp::Expr, s: &qp::PlanSchema| -> bool {
+                let mut all = true;
+                let mut any = false;
+                expr_walk(e, &mut |x| {
+                    if let qp::Expr::Column(col) = x {
+                        any = true;
+                        if !s.fields().iter().any(|f| f.name.eq_ignore_ascii_case(&col.name)) {
+                            all = false;
+                        }
+                    }
+                });
+                all && any
+            };
+            for (l, r) in &j.on {
+                if !((side(l, &ls) && side(r, &rs)) || (side(l, &rs) && side(r, &ls))) {
+                    v5 = Some(format!("V5: join condition {} = {} does not take one side from each input", l, r));
+                }
+                if let (Some(a), Some(b)) = (cname(l), cname(r)) {
+                    opt.union(&a, &b);
+                } else if let (Some((a1, a2)), Some((b1, b2))) = (packed(l), packed(r)) {
+                    opt.union(&a1, &b1);
+                    opt.union(&a2, &b2);
+                }
+            }
+        }
+        let below = scanned_tables(n);
+        for e in node_exprs(n) {
+            let is_on_side = matches!(n, LogicalPlan::Join(j) if j.on.iter().any(|(l, r)| std::ptr::eq(l, e) || std::ptr::eq(r, e)));
+            if is_on_side {
+                continue;
+            }
+            let mut cs = vec![];
+            conjuncts(e, &mut cs);
+            for cj in cs {
+                if let qp::Expr::BinaryExpr { left, op: qp::BinaryOp::Eq, right } = cj {
+                    if let (Some(a), Some(b)) = (cname(left), cname(right)) {
+                        opt.union(&a, &b);
+                        continue;
+                    }
+                }
+                if let Some(k) = norm_cmp(cj) {
+                    cmps.push((k, below.clone()));
+                }
+            }
+        }
+    });
+    if let Some(m) = v5 {
+        return Err(m);
+    }
+    let (oc, pc) = (orig.classes(), opt.classes());
+    if oc != pc {
+        return Err(format!("V3: equality classes of the optimized plan {:?} != those of the written predicates {:?}", pc, oc));
+    }
+    // V4
+    for p in &c.noneq {
+        let a = bare(p.a);
+        let (b, b_table) = match p.b {
+            Some(b) => (bare(b), Some(c.tables[b.0].name.to_lowercase())),
+            None => (format!("#{}", p.lit), None),
+        };
+        let want = match p.op % 4 {
+            0 => (a.clone(), "<", b.clone()),
+            1 => (a.clone(), "<=", b.clone()),
+            2 => (b.clone(), "<", a.clone()),
+            _ => {
+                if a <= b {
+                    (a.clone(), "<>", b.clone())
+                } else {
+                    (b.clone(), "<>", a.clone())
+                }
+            }
+        };
+        let a_table = c.tables[p.a.0].name.to_lowercase();
+        let ok = cmps.iter().any(|(k, below)| *k == want && below.contains(&a_table) && b_table.as_ref().map(|t| below.contains(t)).unwrap_or(true));
+        if !ok {
+            return Err(format!("V4: written predicate {} {} {} is not a conjunct of the optimized plan (at or above the scans it names)", want.0, want.1, want.2));
+        }
+    }
+    Ok(())
+}
+
+// ---------------------------------------------------------------------------
+// generator
+// ---------------------------------------------------------------------------
+
+fn max_rows_for(n: usize, thorough: bool) -> usize {
+    let base = match n {
+        0..=3 => 30,
+        4 => 10,
+        5 => 6,
+        6 => 4,
+        _ => 3,
+    };
+    if thorough && n <= 4 {
+        base * 2
+    } else {
+        base
+    }
+}
+
+fn join_case(tier: Tier) -> BoxedStrategy<JoinCase> {
+    let thorough = tier == Tier::Thorough;
+    (2usize..=7)
+        .prop_flat_map(move |n| {
+            let mr = max_rows_for(n, thorough);
+            (
+                // tables: (rows, skew selector), cells
+                proptest::collection::vec((0..=mr, proptest::collection::vec(proptest::collection::vec(0i64..4, 3), mr.max(1)), 2usize..=3), n),
+                // spanning tree parents + extra edges + column picks
+                proptest::collection::vec(any::<u16>(), n),
+                proptest::collection::vec((any::<u16>(), any::<u16>(), any::<u16>(), any::<u16>()), 0..=n),
+                proptest::collection::vec((any::<u16>(), any::<u16>(), any::<u16>()), 2 * n + 8),
+                // non-equality predicates
+                proptest::collection::vec((any::<u16>(), any::<u16>(), 0u8..4, any::<u16>(), any::<u16>(), any::<bool>(), 0i64..4), 0..3),
+                // order, style
+                proptest::collection::vec(any::<u16>(), n),
+                (0u8..3, proptest::collection::vec(any::<bool>(), n)),
+                proptest::collection::vec(parquet_layout_strategy(mr), n),
+                (0u8..4, any::<bool>()),
+            )
+        })
+        .prop_map(|(tspec, parents, extra, colpicks, noneq_spec, order_sel, (style, mask), layouts, (shape, composite))| {
+            let n = tspec.len();
+            let letters = ["a", "b", "c"];
+            let tables: Vec<Table> = tspec
+                .iter()
+                .enumerate()
+                .map(|(i, (rows, cells, ncols))| {
+                    let name = format!("j{}", i);
+                    Table {
+                        cols: (0..*ncols).map(|k| Column { name: format!("{}{}", name, letters[k]), ty: ColType::Int }).collect(),
+                        rows: (0..*rows).map(|r| (0..*ncols).map(|k| Value::Int(cells[r][k])).collect()).collect(),
+                        name,
+                    }
+                })
+                .collect();
+            let ncols = |r: usize| tables[r].cols.len();
+            let mut cp = colpicks.into_iter();
+            let mut pick_col = |r: usize, sel: u16| pick_idx(sel, ncols(r));
+            // spanning tree: shape 0 chain, 1 star, else random parent
+            let mut edges: Vec<(usize, usize, usize, usize)> = vec![];
+            for i in 1..n {
+                let parent = match shape {
+                    0 => i - 1,
+                    1 => 0,
+                    _ => pick_idx(parents[i], i),
+                };
+                let (s1, s2, s3) = cp.next().unwrap_or((0, 0, 0));
+                let (ca, cb) = (pick_col(parent, s1), pick_col(i, s2));
+                edges.push((parent, ca, i, cb));
+                if composite && s3 % 3 == 0 {
+                    // composite edge: a second column pair between the same relations
+                    let (ca2, cb2) = ((ca + 1) % ncols(parent), (cb + 1) % ncols(i));
+                    edges.push((parent, ca2, i, cb2));
+                }
+            }
+            // extra edges: cycles / cliques
+            for (a, b, s1, s2) in extra {
+                let (ra, rb) = (pick_idx(a, n), pick_idx(b, n));
+                if ra != rb && shape >= 2 {
+                    edges.push((ra, pick_col(ra, s1), rb, pick_col(rb, s2)));
+                }
+            }
+            edges.dedup();
+            let noneq: Vec<NonEq> = noneq_spec
+                .into_iter()
+                .map(|(a, b, op, s1, s2, binary, lit)| {
+                    let (ra, rb) = (pick_idx(a, n), pick_idx(b, n));
+                    NonEq {
+                        a: (ra, pick_idx(s1, ncols(ra))),
+                        op,
+                        // (a literal filter on one relation mostly triggers the known
+                        // projected-relation finding: keep it for a quarter of the predicates)
+                        b: if (binary || lit != 0) && ra != rb { Some((rb, pick_idx(s2, ncols(rb)))) } else { None },
+                        lit,
+                    }
+                })
+                .collect();
+            // scrambled order: sort indices by selector
+            let mut order: Vec<usize> = (0..n).collect();
+            order.sort_by_key(|i| (order_sel[*i], *i));
+            let explicit: Vec<bool> = (1..n)
+                .map(|k| match style {
+                    0 => false,
+                    1 => true,
+                    _ => mask[k],
+                })
+                .collect();
+            let (s1, s2, _) = cp.next().unwrap_or((0, 0, 0));
+            let r1 = pick_idx(s1, n);
+            let r2 = pick_idx(s2, n);
+            let select = vec![(r1, 0), (r2, ncols(r2) - 1)];
+            JoinCase { tables, order, edges, noneq, explicit, select, layouts }
+        })
+        .boxed()
+}
+
+// ---------------------------------------------------------------------------
+// check
+// ---------------------------------------------------------------------------
+
+/// Signatures of C32's open findings
+fn classify(_c: &JoinCase, _stats: bool, msg: &str, plan: Option<&LogicalPlan>) -> Option<&'static str> {
+    // ProjectionPushdown wraps a filtered scan in a Project; in the next fixpoint iteration
+    // JoinReorder names that relation "project", no longer resolves the qualified columns of
+    // its join conditions, and drops the condition or joins it last through a cross product
+    let p = plan?;
+    let structural = msg.starts_with("V1") || msg.starts_with("V3") || msg.starts_with("the optimized answer differs");
+    if structural && join_input_is_projected_scan(p) {
+        return Some("join-reorder-projected-relation");
+    }
+    None
+}
+
+fn join_input_is_projected_scan(p: &LogicalPlan) -> bool {
+    let mut hit = false;
+    for_each_node(p, &mut |n| {
+        if let LogicalPlan::Join(j) = n {
+            for side in [&j.left, &j.right] {
+                if let LogicalPlan::Project(pr) = side.as_ref() {
+                    if matches!(pr.input.as_ref(), LogicalPlan::Scan(_) | LogicalPlan::Filter(_)) {
+                        hit = true;
+                    }
+                }
+            }
+        }
+    });
+    hit
+}
+
+pub struct ReorderKeepsGraph;
+
+impl Check for ReorderKeepsGraph {
+    type Case = JoinCase;
+    fn name(&self) -> &'static str {
+        "reorder_keeps_join_graph"
+    }
+    fn rule(&self) -> &'static str {
+        ">=4 relations and the written order of the relations needs a cross product (some relation has no equality edge to any earlier one)"
+    }
+    fn cases(&self, tier: Tier) -> u32 {
+        tier.pick(800, 30_000)
+    }
+    fn strategy(&self, tier: Tier) -> BoxedStrategy<JoinCase> {
+        join_case(tier)
+    }
+    fn test(&self, c: &JoinCase, obs: &mut Obs) -> Verdict {
+        let sql = render(c);
+        let n = c.order.len();
+        obs.label(format!("relations:{}", n));
+        obs.label(format!("edges_minus_tree:{}", (c.edges.len() + 1).saturating_sub(n).min(4)));
+        if c.explicit.iter().all(|x| *x) {
+            obs.label("style:explicit");
+        } else if c.explicit.iter().any(|x| *x) {
+            obs.label("style:mixed");
+        } else {
+            obs.label("style:comma");
+        }
+        let needs_cross = written_order_needs_cross(c);
+        obs.nontrivial(n >= 4 && needs_cross);
+        if needs_cross {
+            obs.label("written_order_needs_cross");
+        }
+        obs.sample(serde_json::json!({ "sql": sql }));
+        let mut mem = ExecutionContext::new();
+        for t in &c.tables {
+            register_mem(&mut mem, t, &[]);
+        }
+        let dir = TempDir::new("c32");
+        let mut pq = ExecutionContext::new();
+        for (i, t) in c.tables.iter().enumerate() {
+            let mut l = c.layouts.get(i).cloned().unwrap_or_else(ParquetLayout::single);
+            if l.stats == 0 {
+                l.stats = 1;
+            }
+            if let Err(e) = register_parquet(&mut pq, t, dir.path(), &l) {
+                return Verdict::Discard(format!("parquet_registration:{}", crate::sqlcheck::short_err(&e)));
+            }
+        }
+        for (ctx, with_stats) in [(&pq, true), (&mem, false)] {
+            let tag = if with_stats { "stats" } else { "nostats" };
+            let fail = |msg: String, plan: Option<&LogicalPlan>| {
+                let full = format!(
+                    "[{}] {}\n sql: {}\n optimized plan:\n{}\n tables: {}",
+                    tag,
+                    msg,
+                    sql,
+                    plan.map(|p| p.to_string()).unwrap_or_default(),
+                    crate::sqlcheck::fmt_tables(&c.tables)
+                );
+                match classify(c, with_stats, &msg, plan) {
+                    Some(id) => Verdict::Known { id: id.to_string(), msg: full },
+                    None => Verdict::Fail(full),
+                }
+            };
+            if with_stats && stats_of(ctx).is_empty() {
+                obs.label("no_statistics_available");
+            }
+            let plan = match std::panic::catch_unwind(std::panic::AssertUnwindSafe(|| ctx.optimized_plan(&sql))) {
+                Ok(Ok(p)) => p,
+                Ok(Err(e)) => {
+                    obs.label(format!("{}:optimize_error:{}", tag, crate::sqlcheck::short_err(&e.to_string())));
+                    continue;
+                }
+                Err(p) => {
+                    obs.label(format!("{}:optimize_panic:{}", tag, crate::sqlcheck::short_err(&panic_text(p))));
+                    continue;
+                }
+            };
+            if plan_text(&plan).contains("Multiply") {
+                obs.label("packed_join_keys_fired");
+            }
+            if let Err(m) = validate(c, &plan) {
+                // narrow: the first rule alone / shortest prefix whose plan already violates the predicate
+                let mut first = String::from("only the complete pipeline");
+                if let Ok(b) = bind(ctx, &sql) {
+                    let st = stats_of(ctx);
+                    for (name, rules) in util::configurations() {
+                        if let Ok(p) = util::optimize_with(rules, &st, &b) {
+                            // (a rule list without predicate pushdown legitimately keeps the written cross joins)
+                            // (a rule list without JoinReorder legitimately keeps the written cross joins)
+                            let pushes = name == "alone:JoinReorder" || name.split(':').nth(1).and_then(|k| k.parse::<usize>().ok()).map(|k| k >= 7).unwrap_or(false);
+                            if pushes && validate(c, &p).is_err() && !plan_text(&p).eq(&plan_text(&b)) {
+                                first = format!("{}\n plan after it:\n{}", name, p);
+                                break;
+                            }
+                        }
+                    }
+                }
+                return fail(format!("{}\n first violating rule configuration: {}", m, first), Some(&plan));
+            }
+            // answers
+            let bound = match bind(ctx, &sql) {
+                Ok(b) => b,
+                Err(_) => continue,
+            };
+            let product: usize = c.tables.iter().map(|t| t.rows.len().max(1)).product();
+            if product > 40_000 {
+                obs.label("baseline_skipped_cross_product_too_large");
+                continue;
+            }
+            match (execute_logical(ctx, &bound), run_sql(ctx, &sql)) {
+                (Ok(a), Ok(b)) => {
+                    if !multiset_eq(&a, &b, 0.0) {
+                        let (mut x, mut y) = (a.clone(), b.clone());
+                        canon_sort(&mut x);
+                        canon_sort(&mut y);
+                        return fail(format!("the optimized answer differs from the unoptimized one\n unoptimized ({} rows):\n{} optimized ({} rows):\n{}", a.len(), fmt_rows(&x, 30), b.len(), fmt_rows(&y, 30)), Some(&plan));
+                    }
+                    obs.label(format!("{}:same_answer", tag));
+                }
+                (Ok(_), Err(e)) => obs.label(format!("{}:only_optimized_errors:{}", tag, crate::sqlcheck::short_err(&e))),
+                (Err(e), _) => obs.label(format!("{}:unoptimized_error:{}", tag, crate::sqlcheck::short_err(&e))),
+            }
+        }
+        Verdict::Pass
+    }
+}
 
 pub fn property() -> Property {
-    Property { id: "C32", level: "exploration", assumptions: &[], checks: vec![] }
+    Property {
+        id: "C32",
+        level: "exploration",
+        assumptions: &[
+            "column names are table-unique in the generated schemas, so equality classes are compared on bare column names",
+            "a reorder that joins through an implied equality (same equivalence class) is accepted; a PackedJoinKeys pair counts as its two column equalities",
+            "answer equality is checked when the cross product of the table sizes is at most 40 000 rows (the unoptimized plan of a comma join materialises it)",
+        ],
+        checks: vec![Box::new(ReorderKeepsGraph)],
+    }
 }
